@@ -273,10 +273,11 @@ def doElement (l : Line) : Option String := do
   let inp ← Term.inp? (← Term.parse (← l.get? "inp"))
   let forced ← l.bool? "forced"
   let T := OdlModel.Gen.DTypes.tables
+  let cast := (l.bool? "cast").getD true
   let r := match S, forced with
     | .tensor t, true => t.element T true inp
     | .discr d, true => d.element T true inp
-    | s, _ => s.element T inp
+    | s, _ => s.elementC T cast inp
   some s!"ok {showRes r}"
 
 def showOS : Option Space → String
